@@ -4,6 +4,8 @@ import (
 	"fmt"
 	"go/token"
 	"go/types"
+	"os"
+	"strings"
 
 	"golang.org/x/tools/go/ssa"
 )
@@ -258,5 +260,87 @@ func ruleESCAPE(c *Ctx, onlyPkgs map[string]bool) {
 				}
 			}
 		}
+	}
+}
+
+// KEYCOPY: the interning containers (IntSliceMap.Get, IntSliceSet.Insert) are called with
+// transient buffers as keys; what they retain must be a copy, never the caller's slice.
+func ruleKEYCOPY(c *Ctx) {
+	const rule = "KEYCOPY"
+	a := c.aliasAnalysis()
+	n := 0
+	for _, f := range a.funcs {
+		name := calleeName(f)
+		if name != "util/container.IntSliceSet.Insert" && name != "util/container.IntSliceMap.Get" {
+			continue
+		}
+		var key *ssa.Parameter
+		for _, p := range f.Params {
+			if _, ok := p.Type().Underlying().(*types.Slice); ok {
+				key = p
+			}
+		}
+		if key == nil {
+			continue
+		}
+		n++
+		k := name
+		if f.Origin() != nil && f.Origin() != f {
+			k = fmt.Sprintf("%s[%s]", name, strings.TrimPrefix(f.Name(), f.Origin().Name()))
+		}
+		retained := false
+		var pos token.Pos = f.Pos()
+		check := func(v ssa.Value, p token.Pos) {
+			if !hasSliceStorage(v.Type(), 0) {
+				return
+			}
+			for rt := range a.roots(v) {
+				if rt.kind == rParam && rt.obj.(*ssa.Parameter) == key {
+					retained = true
+					pos = p
+					if os.Getenv("TMSA_DEBUG") != "" {
+						fmt.Fprintln(os.Stderr, "KEYCOPY", name, v.Name(), vpath(v), a.roots(v).names())
+					}
+				}
+			}
+		}
+		for _, b := range f.Blocks {
+			for _, ins := range b.Instrs {
+				switch x := ins.(type) {
+				case *ssa.Store:
+					if localAllocRoot(x.Addr) == nil {
+						check(x.Val, x.Pos())
+					}
+				case *ssa.MapUpdate:
+					check(x.Value, x.Pos())
+				case *ssa.Call:
+					if bi, ok := x.Common().Value.(*ssa.Builtin); ok && bi.Name() == "append" && len(x.Common().Args) == 2 {
+						el := x.Common().Args[1]
+						if st, ok := el.Type().Underlying().(*types.Slice); ok && hasSliceStorage(st.Elem(), 0) {
+							if sl, ok := el.(*ssa.Slice); ok {
+								if al, ok := sl.X.(*ssa.Alloc); ok {
+									for _, sv := range a.stores[f][al] {
+										check(sv, x.Pos())
+									}
+								}
+							}
+						}
+					} else if _, isBuiltin := x.Common().Value.(*ssa.Builtin); !isBuiltin && x.Common().StaticCallee() == nil && !x.Common().IsInvoke() {
+						// the allocate callback receives the key: it must get the copy as well
+						for _, arg := range x.Common().Args {
+							check(arg, x.Pos())
+						}
+					}
+				}
+			}
+		}
+		if retained {
+			c.Bad(rule, k, pos, "%s retains the caller's key slice (or hands it to the allocate callback) instead of a copy: callers pass reused buffers, so stored keys later compare equal to anything the buffer holds", name)
+		} else {
+			c.Ok(rule, k, pos, "only a clone of the key is stored")
+		}
+	}
+	if n < 2 {
+		c.add(rule, "count:", token.NoPos, CountDropped, true, "only %d interning container functions found (IntSliceSet.Insert and IntSliceMap.Get instances expected)", n)
 	}
 }
